@@ -118,6 +118,24 @@ class View:
             return [self.origin(*self.src(n, k)) for k in range(self.h.num_in_ports(n))]
         if name == ARR + "to_array":
             return self.origin(*self.src(n, 0))
+        if name == ARR + "borrow" and i == 1:      # element borrowed out of an array: "arr[idx]"
+            a, k = self.origin(*self.src(n, 0)), self.origin(*self.src(n, 1))
+            if isinstance(a, str) and isinstance(k, list) and k[0] == "const":
+                return f"{a}[{k[1]}]"
+            return ["node", name]
+        if name == "arithmetic.conversions.itousize":
+            return self.origin(*self.src(n, 0))
+        if isinstance(op, ops.Call):               # value computed by a direct call: "f(args)"
+            nin = self.h.num_in_ports(n) - 1
+            lin = [k for k in range(nin) if "qubit" in str(self.h.port_type(n.inp(k))).lower()]
+            nret = self.h.num_out_ports(n) - len(lin)
+            if i >= nret:                          # a borrowed argument handed back: same value
+                return self.origin(*self.src(n, lin[i - nret]))
+            callee, _ = self.src(n, self.h.num_in_ports(n) - 1)
+            a = [self.origin(*self.src(n, k)) for k in range(self.h.num_in_ports(n) - 1)]
+            if all(isinstance(x, str) for x in a):
+                return f"{getattr(self.op(callee), 'f_name', '?')}({', '.join(a)})"
+            return ["node", "Call"]
         if isinstance(op, ops.MakeTuple | ops.UnpackTuple) and self.h.num_in_ports(n) == 1:
             return self.origin(*self.src(n, 0))
         return ["node", name or type(op).__name__]
@@ -184,13 +202,28 @@ class View:
         return out
 
     # -- forward: route of a linear value ----------------------------------------------------------
+    def _linear_out(self, call, j):
+        """Out-port on which a direct call hands back its borrowed in-port j: results come first."""
+        nin = self.h.num_in_ports(call) - 1
+        lin = [k for k in range(nin) if "qubit" in str(self.h.port_type(call.inp(k))).lower()]
+        nret = self.h.num_out_ports(call) - len(lin)
+        return nret + lin.index(j)
+
     def route(self, f, port, depth=0):
         """Events met by the linear value entering function f at input `port`, up to f's Output.
         Returns (events, output index)."""
-        inp, fout = self.io(f)
+        inp, _ = self.io(f)
+        ev, end = self._walk(f, inp, port, depth)
+        if end[0] != "out":
+            raise Shape("value ends in an array write-back without having been borrowed here")
+        return ev, end[1]
+
+    def _walk(self, f, n, i, depth):
+        """Follows a linear value from out-port i of n inside function f.  Ends at f's Output
+        (-> ("out", index)) or as the element written back by a borrow_arr.return (-> ("ret", node))."""
+        _, fout = self.io(f)
         ev = []
         stack = []  # element indices of enclosing new_array packings
-        n, i = inp, port
         for _ in range(200):
             ds = self.dst(n, i)
             if len(ds) != 1:
@@ -201,7 +234,7 @@ class View:
             if m == fout:
                 if stack:
                     raise Shape("array still packed at function output")
-                return ev, j
+                return ev, ("out", j)
             if isinstance(op, ops.CFG):
                 _, _, bi, _ = self.single_block(f)
                 n, i = bi, j
@@ -235,13 +268,28 @@ class View:
                 if not stack:
                     raise Shape("unpack of an array that was not packed here")
                 n, i = m, stack.pop()
+            elif name == ARR + "borrow" and j == 0:
+                # an element is borrowed out of this array: follow the element until it is written
+                # back; the array itself must flow straight into that write-back
+                sub, end = self._walk(f, m, 1, depth)
+                if end[0] != "ret":
+                    raise Shape("borrowed array element is not written back")
+                back = self.dst(m, 0)
+                if len(back) != 1 or back[0] != (end[1], 0):
+                    raise Shape("array and its borrowed element are not rejoined by the same write-back")
+                ev += sub
+                n, i = end[1], 0
+            elif name == ARR + "return" and j == 2:
+                if stack:
+                    raise Shape("element written back while still packed")
+                return ev, ("ret", m)
             elif name and name.startswith("tket.quantum."):
                 ev.append(["gate", name[len("tket.quantum."):], j])
                 n, i = m, j
             elif isinstance(op, ops.Call):
                 callee, _ = self.src(m, self.h.num_in_ports(m) - 1)
                 ev.append(["gate", "call:" + getattr(self.op(callee), "f_name", "?"), j])
-                n, i = m, j  # declared helpers take their borrowed arguments first and return None
+                n, i = m, self._linear_out(m, j)
             else:
                 raise Shape(f"linear value flows into {name or type(op).__name__}")
         raise Shape("route too long")
